@@ -501,6 +501,36 @@ fn pick_source(rng: &mut Rng, w: &World, dir: Dir) -> (usize, Vec<bool>) {
     (b.0, b.1)
 }
 
+/// a random world and query for the plain-search sweeps: long searches preferred
+fn gen_world_query(r: &mut Rng) -> (World, Query, &'static str) {
+    let fam = if r.chance(3, 4) { CostFamily::TieFree } else { CostFamily::TieRich };
+    let (mut w, _flags) = gen_world(r, fam);
+    let (mut q, _hk) = gen_query(r, &mut w);
+    if q.orient == Orient::Vertex {
+        // start where much is reachable, aim at a reachable vertex (or at none: explore everything)
+        let (src, reach) = pick_source(r, &w, q.dir);
+        q.source = src;
+        q.target = match r.below(20) {
+            0..=4 => None,
+            5..=16 => {
+                let cands: Vec<usize> = (0..w.n).filter(|v| reach[*v] && *v != src).collect();
+                if cands.is_empty() { Some((src + 1) % w.n) } else { Some(*r.pick(&cands)) }
+            }
+            _ => Some(r.below(w.n as u64) as usize),
+        };
+        let kind = *r.pick(&[HKind::Zero, HKind::Exact, HKind::Half, HKind::Admissible, HKind::Wild]);
+        gen_heuristic(r, &mut w, q.dir, q.target, kind);
+    } else if q.target.is_none() && r.chance(1, 2) {
+        q.target = Some(r.below(w.edges.len() as u64) as usize);
+    }
+    let family = match fam {
+        CostFamily::TieFree => "random_tie_free",
+        CostFamily::TieRich => "random_tie_rich",
+        _ => "random_long_haul",
+    };
+    (w, q, family)
+}
+
 fn stream_limits(a: &Args) {
     let mut st = Stream::new(&a.out, "limits", HEADER10, a.shards);
     if let Some(p) = &a.replay {
@@ -522,31 +552,7 @@ fn stream_limits(a: &Args) {
     }
     while st.next_id() < a.n {
         let mut r = rng.fork();
-        let fam = if r.chance(3, 4) { CostFamily::TieFree } else { CostFamily::TieRich };
-        let (mut w, _flags) = gen_world(&mut r, fam);
-        let (mut q, _hk) = gen_query(&mut r, &mut w);
-        if q.orient == Orient::Vertex {
-            // long searches: start where much is reachable, aim at a reachable vertex (or at none: explore everything)
-            let (src, reach) = pick_source(&mut r, &w, q.dir);
-            q.source = src;
-            q.target = match r.below(20) {
-                0..=4 => None,
-                5..=16 => {
-                    let cands: Vec<usize> = (0..w.n).filter(|v| reach[*v] && *v != src).collect();
-                    if cands.is_empty() { Some((src + 1) % w.n) } else { Some(*r.pick(&cands)) }
-                }
-                _ => Some(r.below(w.n as u64) as usize),
-            };
-            let kind = *r.pick(&[HKind::Zero, HKind::Exact, HKind::Half, HKind::Admissible, HKind::Wild]);
-            gen_heuristic(&mut r, &mut w, q.dir, q.target, kind);
-        } else if q.target.is_none() && r.chance(1, 2) {
-            q.target = Some(r.below(w.edges.len() as u64) as usize);
-        }
-        let family = match fam {
-            CostFamily::TieFree => "random_tie_free",
-            CostFamily::TieRich => "random_tie_rich",
-            _ => "random_long_haul",
-        };
+        let (w, q, family) = gen_world_query(&mut r);
         add_limits_case(&mut st, family, &w, &q, None, &mut r);
     }
     st.finish();
@@ -976,13 +982,124 @@ fn add_config_case(st: &mut Stream, family: &str, js: Vec<Value>) {
     st.case(terms, vec![line], json!({"id": id, "stream": "config", "family": family, "configs": js}));
 }
 
+/// a search under the model that TerminationModelBuilder::build returns for `j` (the builder's own object, not a
+/// reconstruction), with the clock script installed
+fn run_built(w: &World, q: &Query, script: &[u64], j: &Value) -> Obs {
+    let (w2, q2, j2) = (w.clone(), q.clone(), j.clone());
+    observe(script, false, move || {
+        let mut si = build_instance(&w2);
+        si.termination_model = Arc::new(TerminationModelBuilder::build(&j2, None).expect("built before"));
+        let alg = search_algorithm(&q2.alg);
+        let qj = query_json(&q2);
+        let d = direction(q2.dir);
+        match q2.orient {
+            Orient::Vertex => alg.run_vertex_oriented(VertexId(q2.source), q2.target.map(VertexId), &qj, &d, &si),
+            Orient::Edge => alg.run_edge_oriented(EdgeId(q2.source), q2.target.map(EdgeId), &qj, &d, &si),
+        }
+    })
+}
+
+fn hms_of(secs: u64) -> String {
+    format!("{}:{:02}:{:02}", secs / 3600, (secs / 60) % 60, secs % 60)
+}
+
+/// the sweep of CONFIGURATIONS of one case (configured limits 0..needed+2 of both count kinds, combinations, runtime
+/// budgets in whole seconds under one clock script, other spellings, negative numbers) and the clock script
+fn gen_config_sweep(rng: &mut Rng, needed_it: u64, needed_sz: u64) -> (Vec<Value>, Vec<u64>) {
+    let mut js: Vec<Value> = vec![];
+    for l in limit_range(rng, needed_it + 2, 14) {
+        js.push(json!({"type": "iterations", "limit": l}));
+    }
+    for l in limit_range(rng, needed_sz + 2, 14) {
+        js.push(json!({"type": "solution_size", "limit": l}));
+    }
+    let (a, b) = (rng.below(needed_it + 2), rng.below(needed_sz + 2));
+    js.push(json!({"type": "ITERATIONS", "limit": 0}));
+    js.push(json!({"type": "Solution_Size", "limit": 0}));
+    js.push(json!({"type": "combined", "models": []}));
+    js.push(json!({"type": "combined", "models": [{"type": "iterations", "limit": a}, {"type": "solution_size", "limit": b}]}));
+    js.push(json!({"type": "combined", "models": [{"type": "solution_size", "limit": 0}, {"type": "iterations", "limit": needed_it + 1}]}));
+    js.push(json!({"type": "Combined", "models": [{"type": "combined", "models": [{"type": "iterations", "limit": 0}]}, {"type": "solution_size", "limit": needed_sz + 1}]}));
+    // outside the property (negative numbers, missing field): whatever the builder does is only compared with the model
+    js.push(json!({"type": "iterations", "limit": -1}));
+    js.push(json!({"type": "solution_size", "limit": -(1 + rng.below(5) as i64)}));
+    js.push(json!({"type": "iterations"}));
+    // runtime budgets in whole seconds; the clock passes 1 s at iteration i0 and 4 s one iteration later
+    let i0 = rng.below(needed_it + 1) as usize;
+    let mut script: Vec<u64> = vec![];
+    for i in 0..(needed_it as usize + 2) {
+        script.push(if i < i0 { rng.below(2) * SEC } else if i == i0 { SEC + 1 + rng.below(SEC) } else { 4 * SEC + rng.below(3) * SEC });
+    }
+    let f = 1 + rng.below(5);
+    for secs in [0u64, 1, 3, 10] {
+        js.push(json!({"type": "query_runtime", "limit": hms_of(secs), "frequency": f}));
+    }
+    js.push(json!({"type": "Query_Runtime", "limit": "0:00:01", "frequency": 1 + rng.below(5)}));
+    js.push(json!({"type": "combined", "models": [{"type": "query_runtime", "limit": "0:00:01", "frequency": f}, {"type": "iterations", "limit": a}]}));
+    js.push(json!({"type": "query_runtime", "limit": "0:00:01", "frequency": 0}));
+    (js, script)
+}
+
+fn add_config_run_case(st: &mut Stream, family: &str, w: &World, q: &Query, sweep: Option<(Vec<Value>, Vec<u64>)>, rng: &mut Rng) {
+    let id = st.next_id();
+    let unl = run_plain(w, q, &unlimited());
+    let (js, script) = sweep.unwrap_or_else(|| gen_config_sweep(rng, max_seg_len(&unl.trace), max_size(&unl.trace)));
+    // per configuration: what the builder returned (text, Gallina term) and the search observed under the built model
+    let mut shown: Vec<String> = vec![];
+    let mut coq_cs: Vec<String> = vec![];
+    for j in &js {
+        let j2 = j.clone();
+        let built = catch(move || TerminationModelBuilder::build(&j2, None));
+        let (text, coq_b, obs) = match &built {
+            Ok(r @ Ok(m)) => {
+                let t = of_tm(m);
+                let o = run_built(w, q, &script, j);
+                let e = Entry { t: t.clone(), script: script.clone() };
+                (format!("{} => {}", show_built(r), show_entry(&unl, &e, &o)), format!("(Ok {})", coq_t(&t)), Some(o))
+            }
+            Ok(r @ Err(_)) => {
+                let s = show_built(r);
+                (s.clone(), format!("(Err {})", coq_string(s.trim_start_matches("Err "))), None)
+            }
+            Err(_) => ("Panic".to_string(), "(Panic \"\"%string)".to_string(), None),
+        };
+        st.count(&format!("built:{}", if text.starts_with("Ok") { "Ok" } else { text.as_str() }));
+        if let Some(o) = &obs {
+            st.count(&format!("run:{}", if o.status == "terminated" { "terminated" } else if same_result(o, &unl) { "same_as_unlimited" } else { "other" }));
+        }
+        coq_cs.push(format!("({}, {}, {})", coq_json(j), coq_b, match &obs { Some(o) => format!("(Some {})", coq_obs_rel(&unl, o)), None => "None".to_string() }));
+        shown.push(text);
+    }
+    let wq = format!("{} {}", coq_world(w, NumKind::F), coq_query(q, NumKind::F));
+    let terms = vec![
+        format!("TR.line_M_config FN {} {}%Z {} {} {}", default_fuel(w), id, wq, coq_script(&script), coq_list(&js, coq_json)),
+        format!("let u := {} in TR.line_S_config FN {}%Z {} {} u [{}]", coq_obs(&unl), id, wq, coq_script(&script), coq_cs.join("; ")),
+    ];
+    let line = format!("I {} U{{{} tr={}}} {}", id, show_obs_full(&unl), show_list(&unl.trace, show_pair), shown.join(" | "));
+    st.count(&format!("family:{}", family));
+    st.count(&format!("unlimited_status:{}", unl.status));
+    if unl.trace.len() >= 3 {
+        st.mark_nontrivial(&format!("{}|{}", world_to_json(w), query_to_json(q)));
+    }
+    st.case(terms, vec![line], json!({"id": id, "stream": "config", "kind": "run", "family": family, "world": world_to_json(w), "query": query_to_json(q),
+                                      "script": script, "configs": js, "unlimited": show_obs_full(&unl).chars().take(160).collect::<String>()}));
+}
+
 fn stream_config(a: &Args) {
-    let header = format!("{}\nOpen Scope string_scope.", HEADER10);
+    let header = format!("{}\nFrom RC Require Import Base.Res.\nOpen Scope string_scope.", HEADER10);
     let mut st = Stream::new(&a.out, "config", &header, a.shards);
     if let Some(p) = &a.replay {
         st.full = true;
         let v: Value = serde_json::from_str(&std::fs::read_to_string(p).unwrap()).unwrap();
-        add_config_case(&mut st, "replay", v["case"]["configs"].as_array().unwrap().clone());
+        let case = &v["case"];
+        let js = case["configs"].as_array().unwrap().clone();
+        if case["kind"] == "run" {
+            let script: Vec<u64> = case["script"].as_array().unwrap().iter().map(|x| x.as_u64().unwrap()).collect();
+            let mut rng = Rng::new(0);
+            add_config_run_case(&mut st, "replay", &world_from_json(&case["world"]), &query_from_json(&case["query"]), Some((js, script)), &mut rng);
+        } else {
+            add_config_case(&mut st, "replay", js);
+        }
         st.finish();
         return;
     }
@@ -999,10 +1116,22 @@ fn stream_config(a: &Args) {
     add_config_case(&mut st, "not_an_object", vec![json!(5), json!("iterations"), json!([]), json!(null), json!({})]);
     add_config_case(&mut st, "negative_and_zero", vec![json!({"type": "iterations", "limit": -1}), json!({"type": "solution_size", "limit": -2}), json!({"type": "query_runtime", "limit": "0:00:01", "frequency": 0}), json!({"type": "query_runtime", "limit": "0:00:01", "frequency": -1})]);
     let mut rng = Rng::new(a.seed);
+    // configured models at work: a real search under every built model of a sweep of configurations
+    for (name, w, q) in fixed_worlds() {
+        if ["chain", "star_degree_six", "star_degree_six_no_target", "chain_unreachable", "edge_oriented_chain"].contains(&name.as_str()) {
+            let mut r = rng.fork();
+            add_config_run_case(&mut st, &format!("run_{}", name), &w, &q, None, &mut r);
+        }
+    }
     while st.next_id() < a.n {
         let mut r = rng.fork();
-        let n = 1 + r.below(3) as usize;
-        add_config_case(&mut st, "random", (0..n).map(|_| gen_config(&mut r, 2)).collect());
+        if st.next_id() % 3 == 0 {
+            let (w, q, family) = gen_world_query(&mut r);
+            add_config_run_case(&mut st, &format!("run_{}", family), &w, &q, None, &mut r);
+        } else {
+            let n = 1 + r.below(3) as usize;
+            add_config_case(&mut st, "random", (0..n).map(|_| gen_config(&mut r, 2)).collect());
+        }
     }
     st.finish();
 }
